@@ -13,7 +13,8 @@ Record obs := mkobs {
   o_acc : bool;    (* the access server was contacted *)
   o_ws : bool;     (* the websocket server was contacted *)
   o_est : bool;    (* the websocket was established *)
-  o_k : nat        (* messages that passed each way on it *)
+  o_k : nat;       (* messages that passed each way on it *)
+  o_closed : bool  (* cancel iteration only: the server saw the TCP connection end within 1 s of the cancellation *)
 }.
 
 Inductive case :=
@@ -28,25 +29,31 @@ Definition timing_ok (w : Z) (o : obs) : bool :=
   (w - 5 * ms <=? o_gap_ss o) &&
   (negb (o_timed o) || (o_gap_es o <=? w + (w * 6) / 10 + 150 * ms)).
 
-Definition ev_ok (l : loopk) (is_cancel_iter : bool) (e : event) (o : obs) : bool :=
+(* cancelled while connected: was the connection closed, as Dial's ctx.Done() branch says it is? *)
+Definition close_ok (b : beh) (e : event) (o : obs) : bool :=
+  negb (is_success (ev_out e)) || Bool.eqb (o_closed o) (reaches_close (peer_answers b) dial_on_cancel).
+
+Definition ev_ok (l : loopk) (is_cancel_iter : bool) (b : beh) (e : event) (o : obs) : bool :=
+  (negb is_cancel_iter || close_ok b e o) &&
   Bool.eqb (contacts_access l) (o_acc o) &&
   Bool.eqb (contacts_ws (ev_out e)) (o_ws o) &&
   Bool.eqb (is_success (ev_out e)) (o_est o) &&
   (is_cancel_iter || match ev_out e with OConnected k => Nat.eqb k (o_k o) | _ => true end) &&
   timing_ok (ev_wait e) o.
 
-Fixpoint evs_ok (l : loopk) (cp : cancelpt) (i : nat) (es : list event) (os : list obs) : bool :=
+Fixpoint evs_ok (l : loopk) (sch : list sbeh) (cp : cancelpt) (i : nat) (es : list event) (os : list obs) : bool :=
   match es, os with
   | [], [] => true
   | e :: es', o :: os' =>
-      ev_ok l (match phase_here cp i with Some _ => true | None => false end) e o
-      && evs_ok l cp (S i) es' os'
+      ev_ok l (match phase_here cp i with Some _ => true | None => false end)
+              (snd (nth i sch (AOk, Refuse))) e o
+      && evs_ok l sch cp (S i) es' os'
   | _, _ => false
   end.
 
 Definition case_ok (x : case) : bool :=
   match x with
-  | CLoop l c sch cp returned os => returned && evs_ok l cp 0 (client l c sch cp) os
+  | CLoop l c sch cp returned os => returned && evs_ok l sch cp 0 (client l c sch cp) os
   | CBoff c ops ds => list_eqb Z.eqb (boff_run c 0 ops) ds
   end.
 
